@@ -118,6 +118,15 @@ def _ecc_keys(env, c):
 def h_ecc(env, c):
     curve, n, hb = c["curve"], CS[c["curve"]], HB[c["curve"]]
     keys = _ecc_keys(env, c)
+    if curve == "secp521r1":
+        # no certificate block takes P-521 root keys (there is no "sha521"): refused, not hashed with some other algorithm
+        try:
+            RK.RKHTv21.from_keys(keys)
+            refused = False
+        except EX.SPSDKError:
+            refused = True
+        env.prove(refused, "ecc.p521_root_keys_are_refused")
+        return
     refs = [H(env, be(env, k.x, n) + be(env, k.y, n), hb) for k in keys]
     ref = refs[0] if len(keys) == 1 else H(env, [b for r in refs for b in r], hb)
     # (a) the hash table class and (b) the `nxpcrypto rot` class
